@@ -244,7 +244,7 @@ fn eq_case<Q: QueueApi>(seed: u64, idx: u64, cov: &mut EqCov) -> Result<serde_js
         };
         // leaked guards are legal but make the order unspecified: keep the twin comparison exact
         let op = match op {
-            Op::IterMut { n, writes, touch, via_ref, .. } => Op::IterMut { n, writes, touch, leak: false, via_ref },
+            Op::IterMut { n, writes, touch, via_ref, back, .. } => Op::IterMut { n, writes, touch, leak: false, via_ref, back },
             o => o,
         };
         twin_ops.push(op.clone());
@@ -432,7 +432,7 @@ fn gen_history<Q: QueueApi>(rng: &mut Rng, prof: &gen::Profile, stats: &mut Stat
             // a leaked guard leaves the order unspecified, and then capacity changes / hashers may
             // legitimately show through: keep twin histories free of them
             Some(match op {
-                Op::IterMut { n, writes, touch, via_ref, .. } => Op::IterMut { n, writes, touch, leak: false, via_ref },
+                Op::IterMut { n, writes, touch, via_ref, back, .. } => Op::IterMut { n, writes, touch, leak: false, via_ref, back },
                 o => o,
             })
         },
@@ -831,5 +831,107 @@ pub fn mode_hashers(a: &Args) -> i32 {
     st["samples"] = serde_json::Value::Array(samples);
     sink.finish_counts("hashers", stats.ops, stats.state_op.len() as u64, st);
     let _ = runs;
+    0
+}
+
+// ------------------------------------------------------------------------------------------------
+// C12 (std case): String items looked up through &String and through &str
+
+/// mode strkeys: histories=N. Two identical queues of `String` items: one is addressed with the
+/// owned key form (`&String`), the other with the borrowed form (`&str`); every result must agree
+/// and match a BTreeMap model.
+pub fn mode_strkeys(a: &Args) -> i32 {
+    use priority_queue::{DoublePriorityQueue, PriorityQueue};
+    use std::collections::BTreeMap;
+    let seed = a.u("seed", 1);
+    let shard = a.u("shard", 0);
+    let n = a.u("histories", 200);
+    let mut sink = Sink::default();
+    let (mut ops, mut lookups) = (0u64, 0u64);
+    let mut distinct = std::collections::HashSet::new();
+    let mut samples = Vec::new();
+    macro_rules! run_kind {
+        ($Q:ident, $kind:expr, $rng:expr, $hist:expr) => {{
+            let mut owned: $Q<String, i64> = $Q::new();
+            let mut borrowed: $Q<String, i64> = $Q::new();
+            let mut model: BTreeMap<String, i64> = BTreeMap::new();
+            let uni = 2 + $rng.below(12);
+            let steps = 20 + $rng.below(120);
+            let mut bad: Option<String> = None;
+            for step in 0..steps {
+                let key = format!("k{}", $rng.below(uni));
+                let ord = $rng.range(-3, 6);
+                let kind_of_op = $rng.below(8);
+                ops += 1;
+                let (ra, rb, rm): (String, String, String) = match kind_of_op {
+                    0 | 1 => {
+                        let m = model.insert(key.clone(), ord);
+                        (format!("{:?}", owned.push(key.clone(), ord)), format!("{:?}", borrowed.push(key.clone(), ord)), format!("{:?}", m))
+                    }
+                    2 => {
+                        let m = model.get_mut(&key).map(|p| std::mem::replace(p, ord));
+                        (format!("{:?}", owned.change_priority(&key, ord)), format!("{:?}", borrowed.change_priority(key.as_str(), ord)), format!("{:?}", m))
+                    }
+                    3 => {
+                        let m = model.get_mut(&key).map(|p| *p += 1).is_some();
+                        (format!("{:?}", owned.change_priority_by(&key, |p| *p += 1)), format!("{:?}", borrowed.change_priority_by(key.as_str(), |p| *p += 1)), format!("{:?}", m))
+                    }
+                    4 => {
+                        let m = model.remove(&key).map(|p| (key.clone(), p));
+                        (format!("{:?}", owned.remove(&key)), format!("{:?}", borrowed.remove(key.as_str())), format!("{:?}", m))
+                    }
+                    5 => {
+                        let m = model.get(&key).map(|p| (&key, p));
+                        (format!("{:?}", owned.get(&key)), format!("{:?}", borrowed.get(key.as_str())), format!("{:?}", m))
+                    }
+                    6 => {
+                        let m = model.get(&key);
+                        (format!("{:?}", owned.get_priority(&key)), format!("{:?}", borrowed.get_priority(key.as_str())), format!("{:?}", m))
+                    }
+                    _ => {
+                        let m = model.get(&key).map(|p| (key.clone(), *p));
+                        (
+                            format!("{:?}", owned.get_mut(&key).map(|(k, p)| (k.clone(), *p))),
+                            format!("{:?}", borrowed.get_mut(key.as_str()).map(|(k, p)| (k.clone(), *p))),
+                            format!("{:?}", m),
+                        )
+                    }
+                };
+                lookups += 2;
+                $hist.push(format!("{}:{}:{}", kind_of_op, key, ord));
+                if ra != rb {
+                    bad = Some(format!("step {} on {:?}: the owned key gives {} but the borrowed key gives {}", step, key, ra, rb));
+                    break;
+                }
+                if ra != rm {
+                    bad = Some(format!("step {} on {:?}: queue gives {} but the map model gives {}", step, key, ra, rm));
+                    break;
+                }
+                if owned.len() != model.len() || borrowed.len() != model.len() {
+                    bad = Some(format!("step {}: len {} / {} expected {}", step, owned.len(), borrowed.len(), model.len()));
+                    break;
+                }
+            }
+            if let Some(d) = bad {
+                let v = Viol { monitor: "M-BORROWED", op: "lookup".into(), kind: $kind, detail: d, props: vec!["C12", "C03"] };
+                sink.viol(&v.props, &v.sig(), &v.detail, serde_json::json!({"mode":"strkeys","kind":$kind,"history":$hist}));
+            }
+        }};
+    }
+    for i in 0..n {
+        let mut rng = Rng::derive(seed, 17_000 + shard, i);
+        let mut hist: Vec<String> = Vec::new();
+        if i % 2 == 0 {
+            run_kind!(PriorityQueue, "pq", rng, hist);
+        } else {
+            run_kind!(DoublePriorityQueue, "dpq", rng, hist);
+        }
+        distinct.insert(fnv(&hist.join(",")));
+        if samples.len() < 2 {
+            hist.truncate(10);
+            samples.push(serde_json::json!({"ops (kind:key:priority)": hist}));
+        }
+    }
+    sink.finish_counts("strkeys", ops, distinct.len() as u64, serde_json::json!({"string_key_ops": ops, "owned_vs_borrowed_comparisons": lookups / 2, "samples": samples}));
     0
 }
